@@ -20,8 +20,11 @@ Record vzc_case := {
   vzc_admitted : list Z;          (* party ids of Round.GetVRFShares at the end *)
   vzc_hints : list Z;             (* Lagrange coefficient candidates for the admitted ids, admission order *)
   vzc_seed : option Z;            (* dlog of the signature whose hash is the round's VRF output; None = no seed *)
-  vzc_mpks : list ((bool * bool) * (nat * bool))
-     (* contributeMpk calls: ((sender in the DKG set, already contributed), (coefficients sent, accepted)) *)
+  vzc_mpks : list ((bool * bool) * (nat * bool));
+     (* ^ contributeMpk calls: ((sender in the DKG set, already contributed), (coefficients sent, accepted)) *)
+  vzc_reagg : list ((list (list Z) * Z) * (Z * bool))
+     (* a DKG object aggregated again after the dealer set changed: ((polynomials of the FINAL dealers, the
+        party's id), (its aggregated secret afterwards, its own public key share = that secret's public key)) *)
 }.
 
 Definition vzc_check (c : vzc_case) : bool :=
@@ -39,4 +42,6 @@ Definition vzc_check (c : vzc_case) : bool :=
            end
       else match vzc_seed c with None => true | Some _ => false end)
   && forallb (fun v => let '((mem, had), (len, ok)) := v in
-                       Bool.eqb (va_mpk_accept (vzc_t c) mem had len) ok) (vzc_mpks c).
+                       Bool.eqb (va_mpk_accept (vzc_t c) mem had len) ok) (vzc_mpks c)
+  && forallb (fun v => let '((css, id), (si, pkok)) := v in
+                       Z.eqb (dz_sk dz_r css id) si && pkok) (vzc_reagg c).
